@@ -160,6 +160,12 @@ pub fn check(c: &Case) -> Outcome {
     if r {
         classes.push("options_by_reference");
     }
+    if c.a == c.b && !c.a.is_empty() {
+        classes.push("b_equals_a");
+    }
+    if w_ab.len() >= 64 {
+        classes.push("64_or_more_lines");
+    }
     let wrapped = w_a.len() > c.a.split(e).count() || w_b.len() > c.b.split(e).count();
     if wrapped {
         classes.push("wrapped");
@@ -179,13 +185,23 @@ impl Property for P {
         };
         let mix = Mix::FULL.with_endings(4);
         let part = || prop_oneof![9 => gen::token_text(mix, n), 1 => gen::wild_string(8)];
-        (part(), part(), part(), gen::optspec(og), any::<bool>())
-            .prop_map(|(a, a2, b, spec, by_ref)| Case {
-                a,
-                a2,
-                b,
-                spec,
-                by_ref,
+        // b: usually independent; sometimes identical to a (a cache keyed
+        // on the paragraph text would show), rarely very long
+        let b = prop_oneof![
+            40 => part().prop_map(Some),
+            6 => Just(None),
+            1 => gen::long_text(mix).prop_map(Some),
+        ];
+        (part(), part(), b, gen::optspec(og), any::<bool>())
+            .prop_map(|(a, a2, b, spec, by_ref)| {
+                let b = b.unwrap_or_else(|| a.clone());
+                Case {
+                    a,
+                    a2,
+                    b,
+                    spec,
+                    by_ref,
+                }
             })
             .boxed()
     }
